@@ -325,5 +325,21 @@ def reader_acceptance(ctx, prog, rule):
             # `size % page != 0` -> error: here the *non-zero* branch must fail
             nz = (e.get("0") if d[1] == "Eq" else e["otherwise"])
             checks["multiple-of-page"] = h.ok_reachable(start=[nz]) is None
+    # the same tests in any spelling that compares a value with 0 (`match size { 0 => return Err(..), .. }`)
+    for bi in h.cfg():
+        te = int_test_edges(h, Rh, bi)
+        if te is None or 0 not in te[1]:
+            continue
+        val, cases, others = te
+        v_ = strip(val)
+        while v_[0] == "cast":
+            v_ = strip(v_[2])
+        if v_[0] == "call" and v_[1].endswith("Seek::seek"):
+            if h.ok_reachable(start=[cases[0]]) is None:
+                checks["zero-size"] = True
+        rem = as_remainder(v_)
+        if rem is not None and strip(rem[0])[0] == "call" and strip(rem[0])[1].endswith("Seek::seek") and strip_casts(rem[1]) == ("param", 2):
+            if all(h.ok_reachable(start=[o]) is None for o in others) and others:
+                checks["multiple-of-page"] = True
     for k, v in checks.items():
         ctx.ob(rule, "size-check/%s/PagedReader::new" % k, v, "PagedReader::new cannot return Ok when the %s test fails" % k)
